@@ -52,7 +52,7 @@ func depSetsAt(r *Runner, idx int) []map[string]any {
 	var out []map[string]any
 	for _, k := range r.KeysAt(engine.PKOGroup, "ObjectSet", idx) {
 		o := r.StateAt(k, idx)
-		if kubesim.LabelsOf(o)["dep"] == DepName {
+		if isDepSet(o) {
 			out = append(out, o)
 		}
 	}
